@@ -385,6 +385,82 @@ Proof. intros H. rewrite scan_agg_spec, H. reflexivity. Qed.
 
 End Agg.
 
+(* ---- additivity for any integer weight of rows: group-wise totals add up to the ungrouped total ---- *)
+Section Weights.
+Variable q : query.
+Variable g : list nat.
+Variable w : row -> Z.
+
+Definition wsum (l : list row) : Z := fold_right (fun r acc => w r + acc) 0 l.
+
+Lemma wsum_app l1 l2 : wsum (l1 ++ l2) = wsum l1 + wsum l2.
+Proof. induction l1 as [|r t IH]; simpl; [reflexivity|]. rewrite IH. lia. Qed.
+
+Definition zsum (l : list Z) : Z := fold_right Z.add 0 l.
+Lemma zsum_app l1 l2 : zsum (l1 ++ l2) = zsum l1 + zsum l2.
+Proof. induction l1 as [|x t IH]; simpl; [reflexivity|]. rewrite IH. lia. Qed.
+
+Lemma zsum_map_add {A} (a : A -> Z) (c : A -> bool) (x : Z) (l : list A) :
+  zsum (map (fun k => a k + (if c k then x else 0)) l) = zsum (map a l) + x * Z.of_nat (length (filter c l)).
+Proof. induction l as [|y t IH]; simpl; [lia|]. rewrite IH. destruct (c y); simpl length; lia. Qed.
+
+Theorem weights_add_up sel :
+  zsum (map (fun k => wsum (members q g sel k)) (group_keys q g sel)) = wsum sel.
+Proof.
+  induction sel as [|r p IH] using rev_ind; [reflexivity|].
+  assert (Fk : forall k, wsum (members q g (p ++ [r]) k)
+                         = wsum (members q g p k) + (if row_eq k (group_key q g r) then w r else 0)).
+  { intros k. rewrite members_snoc, wsum_app. destruct (row_eq k (group_key q g r)); simpl; lia. }
+  rewrite (map_ext _ _ Fk), zsum_map_add, wsum_app. simpl (wsum [r]).
+  rewrite group_keys_first_appearance.
+  destruct (existsb (row_eq (group_key q g r)) (map (group_key q g) p)) eqn:E.
+  - rewrite app_nil_r, IH.
+    apply existsb_exists in E as (x & Hx & Hrx). apply in_map_iff in Hx as (r' & <- & Hr').
+    destruct (uniquify_complete (map (group_key q g) p) (group_key q g r') (in_map (group_key q g) _ _ Hr')) as (y & Hy & Hy').
+    rewrite (one_match _ _ y); [lia|apply uniquify_nodup|exact Hy|].
+    rewrite row_eq_sym. eapply row_eq_trans; eassumption.
+  - rewrite map_app, zsum_app, IH, filter_app. simpl.
+    rewrite (members_none _ _ _ _ E). simpl.
+    assert (F : filter (fun k : list value => row_eq k (group_key q g r)) (group_keys q g p) = []).
+    { unfold group_keys. rewrite <- existsb_uniquify in E.
+      induction (uniquify (map (group_key q g) p)) as [|k t IHt]; [reflexivity|]. simpl in *.
+      apply orb_false_iff in E as [E1 E2]. rewrite row_eq_sym, E1. now apply IHt. }
+    rewrite F, row_eq_refl. simpl. lia.
+Qed.
+End Weights.
+
+(* sum over an int-valued argument: the fold is the integer sum of the non-NULL values *)
+Definition int_weight (e : enode) (r : row) : Z := match eval r [] e with VInt z => z | _ => 0 end.
+Definition int_or_null (e : enode) (rows : list row) : Prop :=
+  Forall (fun r => match eval r [] e with VInt _ | VNull => True | _ => False end) rows.
+
+Lemma sum_int_step e r acc :
+  match eval r [] e with VInt _ | VNull => True | _ => False end ->
+  agg_update {| afun := ASum (VInt 0); aarg := e |} r (VInt acc) = VInt (acc + int_weight e r).
+Proof.
+  unfold agg_update, int_weight. cbn [afun aarg]. destruct (eval r [] e) eqn:E; try contradiction; intros _; cbn [is_null].
+  - f_equal. lia.
+  - reflexivity.
+Qed.
+
+Lemma fold_sum_int e rows acc : int_or_null e rows ->
+  fold_left (fun cur r => agg_update {| afun := ASum (VInt 0); aarg := e |} r cur) rows (VInt acc)
+  = VInt (acc + wsum (int_weight e) rows).
+Proof.
+  revert acc. induction rows as [|r t IH]; intros acc H; [simpl; f_equal; lia|].
+  inversion H as [|? ? Hr Ht]; subst. cbn [fold_left]. rewrite (sum_int_step e r acc Hr), IH by exact Ht.
+  f_equal. simpl. lia.
+Qed.
+
+Theorem sum_int_spec e rows : int_or_null e rows ->
+  fold_agg {| afun := ASum (VInt 0); aarg := e |} rows = VInt (wsum (int_weight e) rows).
+Proof. intros H. unfold fold_agg. change (agg_init _) with (VInt 0). now rewrite fold_sum_int. Qed.
+
+(* group-wise integer sums add up to the ungrouped sum *)
+Theorem sum_int_additive q g e sel :
+  zsum (map (fun k => wsum (int_weight e) (members q g sel k)) (group_keys q g sel)) = wsum (int_weight e) sel.
+Proof. apply weights_add_up. Qed.
+
 (* ---- C02 main statement on the executor: one output row per group passing HAVING, in order of first appearance ---- *)
 Theorem exec_rows_agg q g table :
   q_group q = Some g ->
